@@ -419,7 +419,7 @@ func init() {
 			"malformed number shapes (0x, 1e+, 09, 1a) are only required to tile",
 		},
 		Strata: []*fw.Stratum{
-			{Name: "bytes", Quick: 80000, Thorough: 1200000, Run: func(t *fw.T) {
+			{Name: "bytes", Quick: 600000, Thorough: 5000000, Run: func(t *fw.T) {
 				r := t.Rand()
 				n := r.IntN(40)
 				if r.IntN(20) == 0 {
@@ -432,7 +432,7 @@ func init() {
 					t.Feature("byte-values-seen", fmt.Sprintf("%02x", src[i]))
 				}
 			}},
-			{Name: "soup", Quick: 100000, Thorough: 1500000, Run: func(t *fw.T) {
+			{Name: "soup", Quick: 800000, Thorough: 6000000, Run: func(t *fw.T) {
 				r := t.Rand()
 				src := genSoup(r, 1+r.IntN(14))
 				lexCase(t, src, "soup")
@@ -441,7 +441,7 @@ func init() {
 					t.Sample(map[string]any{"stratum": "soup", "input": fmt.Sprintf("%q", src)})
 				}
 			}},
-			{Name: "truncations", Quick: 4000, Thorough: 40000, Run: func(t *fw.T) {
+			{Name: "truncations", Quick: 30000, Thorough: 200000, Run: func(t *fw.T) {
 				// every prefix of a short fragment sequence: inputs ending inside every kind of literal / escape / operator
 				r := t.Rand()
 				src := genSoup(r, 2+r.IntN(6))
@@ -451,7 +451,7 @@ func init() {
 				t.Distinct(src)
 				t.Count("prefixes", len(src)+1)
 			}},
-			{Name: "programs", Quick: 3000, Thorough: 30000, Run: func(t *fw.T) {
+			{Name: "programs", Quick: 20000, Thorough: 150000, Run: func(t *fw.T) {
 				r := t.Rand()
 				g := gen.NewSyn(r, gen.SynOpts{ExprDepth: 2 + r.IntN(4), StmtDepth: 1 + r.IntN(3), MaxStmts: 1 + r.IntN(5), NumDot: true})
 				prog := g.Program()
